@@ -175,9 +175,13 @@ def _run_model_for_batch(model_cls: Type[Model], kwargs: dict, collectors: Optio
     Union[None, Dict[str, List[Any]], List[Any]]:
         The data collected by the specified collectors (if any).
     """
-    model = _build_model_from_kwargs(model_cls, kwargs)  # Build Model
-    while model.is_running() and model.systems.timestep < max_timesteps:  # Run Model
-        model.execute()
+    try:
+        model = _build_model_from_kwargs(model_cls, kwargs)  # Build Model
+        while model.is_running() and model.systems.timestep < max_timesteps:  # Run Model
+            model.execute()
+    except StopIteration as e:
+        # A StopIteration travelling through pool.imap*() would silently end the result loop of the caller
+        raise RuntimeError("The model run raised StopIteration.") from e
 
     if collectors is None:  # No Data Collection
         return None
@@ -341,12 +345,16 @@ def _run_model_for_search(model_cls: Type[Model], score_func: Callable[[Model], 
         parameter set.
     """
     records = []
-    for _ in range(repetitions):  # For each repetition
-        model = _build_model_from_kwargs(model_cls, parameters)  # Build Model
-        while model.is_running() and model.systems.timestep < max_timesteps:  # Run Model
-            model.execute()
+    try:
+        for _ in range(repetitions):  # For each repetition
+            model = _build_model_from_kwargs(model_cls, parameters)  # Build Model
+            while model.is_running() and model.systems.timestep < max_timesteps:  # Run Model
+                model.execute()
 
-        records.append(score_func(model))  # Add result to records
+            records.append(score_func(model))  # Add result to records
+    except StopIteration as e:
+        # A StopIteration travelling through pool.imap*() would silently end the result loop of the caller
+        raise RuntimeError("The model run raised StopIteration.") from e
 
     parameters['records'] = records
     return parameters
